@@ -94,8 +94,9 @@ def emit_clauses(em, kw, clauses, unit, fn, kind, indent='    '):
                             'tags': tags, 'kind': kind, 'gen_start': start, 'gen_end': em.lineno - 1})
 
 
+SHADOWED_FN_NAMES = {'coin', 'coins', 'attr', 'mint', 'burn'}
 CLOSURE_PREV = {'(', ',', '=', '=>', '{', ';', 'return', 'move', '&&', '||', '!'}
-PRED_ADAPTERS = {'iter_position', 'iter_any', 'iter_all', 'iter_find', 'iter_filter', 'position', 'any', 'all', 'find', 'filter', 'iter_count_where', 'is_some_and', 'retain'}
+PRED_ADAPTERS = {'into_iter_filter', 'iter_position', 'iter_any', 'iter_all', 'iter_find', 'iter_filter', 'position', 'any', 'all', 'find', 'filter', 'iter_count_where', 'is_some_and', 'retain'}
 
 
 def closure_starts(toks):
@@ -145,22 +146,32 @@ def closure_extent(toks, k):
     return pe, b, j, False, ret
 
 
-def splice_body(em_obls, body, fspec, unit, fname, rw):
-    """apply loop/closure contracts and auto predicate-closure annotation; returns new token list"""
-    # ---- closures (processed from last to first so indices stay valid)
+def splice_closures(body, fspec, fname, rw, counter):
+    """Closure contracts by ordinal (source order, outer before inner) + auto annotation of predicate closures (R3).
+    Recursive: the body of a closure is itself processed, so nested closures get their own ordinal and annotation."""
     starts = closure_starts(body)
-    edits = []  # (start, end, replacement text)
-    for ordinal, k in enumerate(starts):
+    out = []
+    pos = 0
+    k_i = 0
+    while k_i < len(starts):
+        k = starts[k_i]
+        if k < pos:
+            k_i += 1
+            continue
         pe, b, e, has_block, ret = closure_extent(body, k)
-        cs = fspec.closures.get(ordinal) if fspec else None
+        ordinal = counter[0]
+        counter[0] += 1
+        out.extend(body[pos:k])
+        inner = splice_closures(body[b:e], fspec, fname, rw, counter)
         params = text_of(body[k:pe + 1])
-        btxt = text_of(body[b:e])
+        btxt = text_of(inner)
+        cs = fspec.closures.get(ordinal) if fspec else None
         if cs is not None:
             if cs.get('params'):
                 params = cs['params']
             r = cs.get('ret') or (('(__r: %s)' % text_of(body[ret[0]:ret[1]]).strip()) if ret else None)
             if r is None:
-                raise ExtractError('closure %d of %s needs `ret`' % (ordinal, fname))
+                raise ExtractError('closure %d of %s needs `%%ret`' % (ordinal, fname))
             txt = params + ' -> ' + r + '\n'
             for kw in ('requires', 'ensures'):
                 cl = cs.get(kw) or []
@@ -168,30 +179,48 @@ def splice_body(em_obls, body, fspec, unit, fname, rw):
                     txt += '        ' + kw + '\n'
                     for (label, tags, c) in cl:
                         txt += '            ' + ' '.join(x.strip() for x in c.rstrip().rstrip(',').split('\n')) + ',\n'
-            txt += btxt if has_block else ('{ ' + btxt + ' }')
-            edits.append((k, e, txt, ('closure', ordinal, cs)))
-            continue
-        # auto annotation of single-expression predicate closures passed to adapters (R3)
-        if not has_block and ret is None:
-            p = prv_sig(body, k)
-            pp = prv_sig(body, p) if p >= 0 else -1
-            if p >= 0 and is_p(body[p], '(') and pp >= 0 and is_id(body[pp]) and body[pp].text in PRED_ADAPTERS:
-                expr = btxt.strip()
-                txt = '%s -> (__r: bool) ensures __r == (%s) { %s }' % (params, expr, expr)
-                rw.rec('R3', text_of(body[k:e]), txt)
-                edits.append((k, e, txt, None))
-    # nested closures: keep only outermost edits
-    edits.sort(key=lambda x: x[0])
-    final = []
-    last_end = -1
-    for ed in edits:
-        if ed[0] >= last_end:
-            final.append(ed)
-            last_end = ed[1]
-    out = list(body)
-    for (s, e, txt, _) in reversed(final):
-        out[s:e] = [T('raw', txt, body[s].start)]
-    body = out
+            pre = '\n'.join(cs.get('body', []))
+            if has_block and pre:
+                bi = btxt.index('{')
+                btxt = btxt[:bi + 1] + '\n' + pre + '\n' + btxt[bi + 1:]
+            txt += btxt if has_block else ('{ ' + pre + ' ' + btxt + ' }')
+            out.append(T('raw', txt, body[k].start))
+        else:
+            done = False
+            if not has_block and ret is None:
+                p = prv_sig(body, k)
+                pp = prv_sig(body, p) if p >= 0 else -1
+                if p >= 0 and is_p(body[p], '(') and pp >= 0 and is_id(body[pp]) and body[pp].text in PRED_ADAPTERS and '|' not in text_of(body[b:e]):
+                    expr = btxt.strip()
+                    # a closure parameter that shadows a global fn of the shim (e.g. `coin`) is renamed (alpha conversion)
+                    pm = re.match(r'^\|\s*([a-z_][a-z0-9_]*)\s*\|$', params.strip())
+                    if pm and pm.group(1) in SHADOWED_FN_NAMES:
+                        old = pm.group(1)
+                        new_nm = old + '__p'
+                        expr = re.sub(r'(?<![.:A-Za-z0-9_])' + old + r'(?![A-Za-z0-9_(])', new_nm, expr)
+                        params = '|%s|' % new_nm
+                        rw.rec('R3', 'closure parameter %s' % old, new_nm)
+                    txt = '%s -> (__r: bool) ensures __r == (%s) { %s }' % (params, expr, expr)
+                    rw.rec('R3', text_of(body[k:e]), txt)
+                    out.append(T('raw', txt, body[k].start))
+                    done = True
+            if not done:
+                out.extend(body[k:b])
+                out.extend(inner)
+        pos = e
+        k_i += 1
+    out.extend(body[pos:])
+    return out
+
+
+def splice_body(em_obls, body, fspec, unit, fname, rw):
+    """apply loop/closure contracts and auto predicate-closure annotation; returns new token list"""
+    counter = [0]
+    body = splice_closures(body, fspec, fname, rw, counter)
+    if fspec:
+        for k_ in fspec.closures:
+            if k_ >= counter[0]:
+                raise ExtractError('closure %d of %s not found (function has %d closures)' % (k_, fname, counter[0]))
 
     # ---- loops
     if fspec and fspec.loops:
@@ -243,11 +272,15 @@ def splice_body(em_obls, body, fspec, unit, fname, rw):
                 out[j + 1:j + 1] = [T('raw', ' %s:' % ls['iter'], out[j].start)]
                 bo += 1
             be_ = match_close(out, bo)
+            if ls.get('loop_after'):
+                out[be_ + 1:be_ + 1] = [T('raw', '\n' + '\n'.join(ls['loop_after']) + '\n', out[be_].start)]
             if ls.get('loop_end'):
                 out[be_:be_] = [T('raw', '\n' + '\n'.join(ls['loop_end']) + '\n', out[be_].start)]
             if ls.get('loop_begin'):
                 out[bo + 1:bo + 1] = [T('raw', '\n' + '\n'.join(ls['loop_begin']) + '\n', out[bo].start)]
             out[bo:bo] = [T('raw', inv + '    ', out[bo].start)]
+            if ls.get('loop_before'):
+                out[k:k] = [T('raw', '\n'.join(ls['loop_before']) + '\n    ', out[k].start)]
         body = out
     return body
 
@@ -295,6 +328,56 @@ def desugar_incl_ranges(body, fspec, rw):
                 n_done += 1
                 k += 1
                 continue
+        k += 1
+    return out
+
+
+def anf_split_try_map_filter(body, rw):
+    """R5c: `let X[: T] = RECV.iter_try_map(A)?.into_iter_filter(B);`
+         -> `let X__mapped = RECV.iter_try_map(A)?; let X[: T] = X__mapped.into_iter_filter(B);`
+    (names the intermediate vector of a method chain; evaluation order unchanged)"""
+    out = list(body)
+    k = 0
+    while k < len(out):
+        t = out[k]
+        if is_id(t, 'into_iter_filter'):
+            # walk back: `. into_iter_filter` preceded by `?` preceded by `)` of iter_try_map(...)
+            d = prv_sig(out, k)
+            q = prv_sig(out, d) if d >= 0 else -1
+            if d >= 0 and is_p(out[d], '.') and q >= 0 and is_p(out[q], '?'):
+                # find the `let` that starts this statement
+                j = q
+                depth = 0
+                let_i = None
+                while j >= 0:
+                    x = out[j]
+                    if x.kind == 'punct' and x.text in ')]}':
+                        depth += 1
+                    elif x.kind == 'punct' and x.text in '([{':
+                        depth -= 1
+                        if depth < 0:
+                            break
+                    elif depth == 0 and is_p(x, ';'):
+                        break
+                    elif depth == 0 and is_id(x, 'let'):
+                        let_i = j
+                        break
+                    j -= 1
+                if let_i is not None and 'iter_try_map' in text_of(out[let_i:q]):
+                    nm_i = nxt_sig(out, let_i)
+                    if is_id(out[nm_i], 'mut'):
+                        nm_i = nxt_sig(out, nm_i)
+                    name = out[nm_i].text
+                    eq = nm_i
+                    while not is_p(out[eq], '='):
+                        eq += 1
+                    rw.rec('R5c', 'let %s = ..iter_try_map(..)?.into_iter_filter(..)' % name, 'let %s__mapped = ..?; let %s = %s__mapped.into_iter_filter(..)' % (name, name, name))
+                    tail = out[d:]
+                    new = ([T('raw', 'let %s__mapped =' % name, out[let_i].start)] + out[eq + 1:q + 1] + [T('raw', '; ', out[q].start)]
+                           + out[let_i:eq + 1] + [T('raw', ' %s__mapped' % name, out[eq].start)])
+                    out = out[:let_i] + new + tail
+                    k = let_i + len(new) + 2
+                    continue
         k += 1
     return out
 
@@ -540,6 +623,7 @@ def emit_fn(em, unit, it, toks, fspec, path, src_text, rw):
     if fspec and fspec.body_start:
         for ln in fspec.body_start:
             em.emit(ln)
+    body = anf_split_try_map_filter(body, rw)
     body = desugar_incl_ranges(body, fspec, rw)
     body = splice_body(em.obls, body, fspec, unit, lname, rw)
     # register loop invariants / closure clauses as obligations (line-approximate: whole function)
